@@ -257,7 +257,9 @@ pub fn gen_c09(prop: &str, tier: Tier, rng: &mut Rng, seed: u64, run: u64) -> Pl
                 );
             }
             _ => {
-                let t = st.next(rng);
+                // sometimes a command with a stamp that is already in use elsewhere (a tie: either
+                // candidate is an acceptable answer, but it must be one of them, whole)
+                let t = if rng.chance(0.2) { st.used.iter().next_back().copied().unwrap_or(0) } else { st.next(rng) };
                 let i = rng.below(n as u64) as usize;
                 cmd_op(&mut plan, rng, i, t);
             }
@@ -384,6 +386,7 @@ pub fn gen_c13(prop: &str, tier: Tier, rng: &mut Rng, seed: u64, run: u64) -> Pl
         specs.push(DevSpec::Ext);
     }
     plan.sets("devs", &specs_text(&specs));
+    plan.set("gear_ctor_quantity", rng.below(2) as i64);
     let ranges = term_ranges(&specs);
     let nt = term_count(&specs);
     let ext0 = ranges[ndev].0;
@@ -662,7 +665,15 @@ pub fn gen_c16(prop: &str, _tier: Tier, rng: &mut Rng, seed: u64, run: u64) -> P
 pub fn generate(prop: &str, tier: Tier, rng: &mut Rng, seed: u64, run: u64) -> Plan {
     match prop {
         "C08" => gen_c08(prop, tier, rng, seed, run),
-        "C09" => gen_c09(prop, tier, rng, seed, run),
+        "C09" => {
+            // beyond the enumerated pairs, a quarter of the runs read terminals inside device graphs
+            // (random values incl. zeros, device-written slots)
+            if run >= C09_PAIRS && run % 4 == 3 {
+                if run % 8 == 3 { gen_c08(prop, tier, rng, seed, run) } else { gen_c13(prop, tier, rng, seed, run) }
+            } else {
+                gen_c09(prop, tier, rng, seed, run)
+            }
+        }
         "C13" => gen_c13(prop, tier, rng, seed, run),
         "C20" => gen_c20(prop, tier, rng, seed, run),
         _ => match run % 3 {
